@@ -1864,10 +1864,10 @@ func runNNSFamily(t *testing.T, prop string) {
 	pool := NewPool("n")
 	lit := nnsLit{pool: pool}
 	readers := nnsReaders(prop)
-	nh, maxOps := 36, 34
+	nh, maxOps := 48, 34
 	switch prop {
 	case "C12":
-		nh, maxOps = 18, 32
+		nh, maxOps = 30, 32
 	}
 	if Tier() == "thorough" {
 		nh, maxOps = nh*10, 60
@@ -1983,8 +1983,7 @@ func runNNSFamily(t *testing.T, prop string) {
 	for _, r := range readers {
 		rds = append(rds, lit.opt(r))
 	}
-	cf := &CasesFile{Pool: pool, Header: hd.String(), Cases: cases}
-	cf.Footer = "Definition valid_names : list bytes := " + ListLit(vn) + ".\n" +
+	footer := "Definition valid_names : list bytes := " + ListLit(vn) + ".\n" +
 		"Definition valid_datas : list (Z * bytes) := " + ListLit(dataTable) + ".\n" +
 		"Definition vname (b : bytes) : bool := existsb (bytes_eqb b) valid_names.\n" +
 		"Definition vdata (t : Z) (d : bytes) : bool := existsb (fun td : Z * bytes => (fst td =? t) && bytes_eqb (snd td) d) valid_datas.\n" +
@@ -1993,7 +1992,21 @@ func runNNSFamily(t *testing.T, prop string) {
 		"Definition readers : list nop := " + ListLit(rds) + ".\n" +
 		"Definition check_case (c : list ((nctx * nop) * val)) :=\n  run_case (nstep_obs (fun x => x) vname vdata sok readers) (ninit, []) 0 c.\n" +
 		"Definition M := Eval vm_compute in failures_from 0 (map check_case cases).\nPrint M.\n"
-	require.NoError(t, cf.Write(OutDir()+"/cases_"+prop+".v"))
+	// several files (the driver evaluates them in parallel); each carries the whole pool
+	const chunk = 12
+	for k := 0; k*chunk < len(cases); k++ {
+		hi := (k + 1) * chunk
+		if hi > len(cases) {
+			hi = len(cases)
+		}
+		cf := &CasesFile{Pool: pool, Header: hd.String(), Cases: cases[k*chunk : hi], Footer: footer}
+		name := fmt.Sprintf("/cases_%s_%d.v", prop, k)
+		if k == 0 {
+			name = "/cases_" + prop + ".v"
+		}
+		require.NoError(t, cf.Write(OutDir()+name))
+	}
+	st.Extra["cases_files"] = (len(cases) + chunk - 1) / chunk
 	st.Write()
 }
 
